@@ -6,7 +6,7 @@ LEVEL = "exploration"
 RULE = "generated programs of the program world (see C01), observed at every suspension and from probes; see DESIGN.md section 5"
 ASSUMPTIONS = ["same program world as C01/C02"]
 REAL_VS_STUB = {"real": ["stackscope", "CPython of each leg", "contextlib"], "stub": ["generated programs", "shadow managers", "driver"]}
-RARE_PROBES = []
+RARE_PROBES = ["c16_raw_frames_checked"]
 LEGS = [
     {"name": "w312", "python": "3.12", "quick": 2500, "thorough": 60000, "quick_s": 50, "thorough_s": 420},
     {"name": "w311", "python": "3.11", "quick": 2000, "thorough": 50000, "quick_s": 40, "thorough_s": 300},
@@ -181,6 +181,62 @@ def run_hooks(ctx):
                 % (type(x).__name__, fo.funcname, fo.hide, f0.funcname, f0.hide),
                 ctx.case,
             )
+    # raw frames below a SUSPENDED generator-like: it yields from / awaits a custom iterator that an
+    # unwrap_stackitem hook turns into bare frame objects (frames of other suspended generator-likes). Those
+    # frames are in the host's series but are not its frame: they must not carry the host as origin.
+    if t.choose(2):
+        _hooks["elab"] = lambda frame, next_inner: None
+
+        class It(Box):
+            def __iter__(self):
+                return self
+
+            __await__ = __iter__
+
+            def __next__(self):
+                return 1
+
+        raws = [make() for _ in range(1 + t.choose(2))]
+        genlikes.extend(x for x in made if x not in genlikes)
+        it = It([fr for g in raws for fr in [getattr(g, "gi_frame", None) or getattr(g, "cr_frame", None) or getattr(g, "ag_frame", None)] if fr is not None])
+        hk = t.choose(2)
+        if hk == 0:
+            def host_fn(x):
+                yield from x
+
+            host = host_fn(it)
+            next(host)
+            host_frame = host.gi_frame
+        else:
+            async def host_fn(x):
+                await x
+
+            host = host_fn(it)
+            host.send(None)
+            host_frame = host.cr_frame
+        genlikes.append(host)
+        sh = stackscope.extract(host)
+        case = dict(ctx.case, raw_frames_below=("generator", "coroutine")[hk], raw=[type(x).__name__ for x in raws])
+        if sh.error is not None:
+            raise Violation("c16_hooks_error", "extract error %r" % (sh.error,), case)
+        if not sh.frames or sh.frames[0].pyframe is not host_frame or sh.frames[0].origin is not host:
+            raise Violation("c16_origin_missing", "raw frames: the suspended host's own frame is not first with the host as origin", case)
+        if len(sh.frames) != 1 + len(it.payload):
+            raise Violation("c16_hooks_frames", "raw frames: %d frames for a host plus %d bare frames" % (len(sh.frames), len(it.payload)), case)
+        for f in sh.frames[1:]:
+            o = f.origin
+            ctx.stat("c16_raw_frames_checked")
+            if o is not None:
+                try:
+                    fo = stackscope.extract_outermost(o)
+                except Exception as e:
+                    raise Violation("c16_origin_does_not_recover_frame", "raw frames: frame %s has origin %s but extract_outermost(origin) raises %r" % (f.funcname, type(o).__name__, e), case)
+                if fo.pyframe is not f.pyframe:
+                    raise Violation(
+                        "c16_origin_does_not_recover_frame",
+                        "raw frames: bare frame %s reached through a hook below a suspended %s has that %s as origin, which recovers frame %s instead" % (f.funcname, type(o).__name__, type(o).__name__, fo.funcname),
+                        case,
+                    )
     ctx.stat("c16_hook_frames_checked", seen)
     ctx.cover(("c16hooks", how, elab_mode, tuple(type(x).__name__ for x in payload), tuple(type(x).__name__ for x in repl)))
     ctx.log("hooks", how, elab_mode, len(st.frames), seen)
